@@ -178,4 +178,27 @@ theorem C03_layout_fails_without_F06 :
     .release 3, .reserve 0 4 4] 0 _ rfl ⟨2, 4, 2, 2⟩ (by decide) ⟨4, 4, 4, 4⟩ (by decide) (by decide) 0 (by decide) 0 (by decide)
   exact this rfl
 
+/-- the repaired configuration with the F06b repair (blocks formed on aligned spans) removed -/
+def cfgNoF06b : Cfg := { Gen.poolCfg with resizeBlocksAligned := false }
+
+/-- F06b as a model trace (alignment 4): reserve 4, slices [1,2) and [3,4), release the parent,
+    reserve 4: the unrepaired packing needs 8 bytes for the two remnants, the new block lands at
+    [8,12) in a pool of size 8 -/
+theorem C03_layout_fails_without_F06b :
+    ¬ ∀ (ops : List Op) (i : Nat) (p : Pool), (run cfgNoF06b ops).pool i = some p →
+      ∀ r ∈ p.resv, r.off + r.size ≤ p.size := by
+  intro h
+  have := h [.pool 0, .align 0 4, .reserve 0 0 4, .slice 1 0 1 1, .slice 2 0 3 1, .release 0, .reserve 0 3 4] 0 _ rfl
+    ⟨3, 8, 4, 1⟩ (by decide)
+  exact absurd this (by decide)
+
+/-- what the harness observes with `read k` is the view of C03_packing_is_identity_on_view -/
+theorem C03_read_returns_view (s : State) (k i : Nat) (p : Pool) (r : Resv)
+    (hloc : s.locate k = some (.inPool i p r)) :
+    ∃ b, view p k = some b ∧ step Gen.poolCfg s (.read k) = (s, .bytes b) := by
+  have hf := (locate_inPool hloc).2.1
+  refine ⟨readAt p.buf r.off r.size, by simp only [view, hf, Option.map_some], ?_⟩
+  have : s.readSlot k = some (readAt p.buf r.off r.size) := by simp only [State.readSlot, hloc]
+  simp only [step, this]
+
 end Occa.Pool.C03
